@@ -1,4 +1,156 @@
-(* C15 — placeholder while the theorems are being written *)
-From Cog Require Import Model.Spec15.
-Theorem process_nil : forall ss, process [] ss = Ok ss.
-Proof. reflexivity. Qed.
+(* C15 — schema transformations have their documented effect and touch nothing else.
+   Statements only; each closed by `exact <lemma>`; Print Assumptions under each.
+   `wf_schema`: object keys are the object names and are unique (what every front-end builds). *)
+From Coq Require Import List String Bool.
+From Cog Require Import Model.IR Model.Passes Model.Process Model.Spec15 Proofs.PassLemmas Proofs.C15Proofs.
+Import ListNotations.
+
+(* The object-local transformations (omit_fields, retype_object, retype_field,
+   fields_set_required, fields_set_not_required, fields_set_default, hint_object,
+   append_comment_objects), for ALL schemas and parameters: *)
+
+(* ... are a map over the objects: package, metadata, entry point, keys and ORDER unchanged, *)
+Theorem local_pass_is_map : forall p g ss,
+  local_fn p = Some g -> Forall wf_schema ss -> run_pass p ss = Ok (map_objects g ss).
+Proof. exact local_pass_is_map_proof. Qed.
+Print Assumptions local_pass_is_map.
+
+(* ... an object the selector does not name (package exact, name case-insensitive) is returned
+   identical — comments, defaults, hints, fields and their order included, *)
+Theorem local_untargeted_unchanged : forall p g o,
+  local_fn p = Some g -> targets_object p o = false -> g o = o.
+Proof. exact local_untargeted_unchanged_proof. Qed.
+Print Assumptions local_untargeted_unchanged.
+
+(* ... no object is renamed or moved to another package, *)
+Theorem local_preserves_identity : forall p g o, local_fn p = Some g ->
+  o_name (g o) = o_name o /\ o_selfpkg (g o) = o_selfpkg o /\ o_selfname (g o) = o_selfname o.
+Proof. exact local_preserves_identity_proof. Qed.
+Print Assumptions local_preserves_identity.
+
+(* ... hence the frame condition on whole schema sets, and well-formedness is kept, *)
+Theorem local_frame : forall p g ss ss',
+  local_fn p = Some g -> Forall wf_schema ss -> run_pass p ss = Ok ss' ->
+  Forall2 (schema_frame p) ss ss' /\ Forall wf_schema ss'.
+Proof. exact local_frame_proof. Qed.
+Print Assumptions local_frame.
+
+(* ... and a transformation whose target does not exist leaves the schemas unchanged. *)
+Theorem local_absent_identity : forall p g ss,
+  local_fn p = Some g -> Forall wf_schema ss ->
+  (forall s ko, In s ss -> In ko (s_objects s) -> targets_object p (snd ko) = false) ->
+  run_pass p ss = Ok ss.
+Proof. exact local_absent_identity_proof. Qed.
+Print Assumptions local_absent_identity.
+
+(* For every SEQUENCE of object-local transformations: an object none of them names is
+   identical, under the same key at the same position, at the end. *)
+Theorem sequence_frame : forall ps ss ss',
+  all_local ps -> Forall wf_schema ss -> process ps ss = Ok ss' ->
+  Forall2 (schema_seq_frame ps) ss ss'.
+Proof. exact sequence_frame_proof. Qed.
+Print Assumptions sequence_frame.
+
+Theorem process_app : forall ps qs ss, process (ps ++ qs) ss = bind (process ps ss) (process qs).
+Proof. exact process_app_proof. Qed.
+Print Assumptions process_app.
+
+(* field-level effect and frame *)
+Theorem fields_set_required_fields : forall req refs o a dh fs,
+  o_type o = TStruct a dh fs ->
+  exists fs', o_type (fields_set_req_obj req refs o) = TStruct a dh fs' /\
+    Forall2 (fun f f' =>
+       f_name f' = f_name f /\ f_comments f' = f_comments f /\
+       if existsb (fun r => fieldref_matches r o f) refs
+       then f_required f' = req /\ f_type f' = set_nullable (f_type f) (negb req)
+       else f' = f) fs fs'.
+Proof. exact fields_set_required_fields_proof. Qed.
+Print Assumptions fields_set_required_fields.
+
+Theorem omit_fields_fields : forall refs o a dh fs,
+  o_type o = TStruct a dh fs ->
+  o_type (omit_fields_obj refs o)
+  = TStruct a dh (filter (fun f => negb (existsb (fun r => fieldref_matches r o f) refs)) fs).
+Proof. exact omit_fields_fields_proof. Qed.
+Print Assumptions omit_fields_fields.
+
+Theorem retype_field_fields : forall r as_ c o fs,
+  (forall f, In f fs -> fieldref_matches r o f = false) /\ retype_first o r as_ c fs = fs
+  \/ exists pre f post, fs = pre ++ f :: post /\
+       (forall g, In g pre -> fieldref_matches r o g = false) /\ fieldref_matches r o f = true /\
+       retype_first o r as_ c fs
+       = pre ++ mkField (f_name f) (match c with Some x => x | None => f_comments f end) as_ (f_required f) :: post.
+Proof. exact retype_field_fields_proof. Qed.
+Print Assumptions retype_field_fields.
+
+(* omit *)
+Theorem omit_exact : forall refs ss,
+  omit refs ss = map (fun s => set_objects s (filter (fun ko => negb (objrefs_match refs (snd ko))) (s_objects s))) ss.
+Proof. exact omit_exact_proof. Qed.
+Print Assumptions omit_exact.
+Theorem omit_absent_identity : forall refs ss,
+  (forall s ko, In s ss -> In ko (s_objects s) -> objrefs_match refs (snd ko) = false) ->
+  run_pass (POmit refs) ss = Ok ss.
+Proof. exact omit_absent_identity_proof. Qed.
+Print Assumptions omit_absent_identity.
+
+(* add_object / duplicate_object *)
+Theorem add_object_fresh : forall pkg obj as_ c s,
+  s_pkg s = pkg -> ~ In obj (map fst (s_objects s)) ->
+  s_objects (register_objects s [mkObject obj c as_ pkg obj]) = s_objects s ++ [(obj, mkObject obj c as_ pkg obj)].
+Proof. exact add_object_fresh_proof. Qed.
+Print Assumptions add_object_fresh.
+Theorem add_object_absent_identity : forall pkg obj as_ c ss,
+  (forall s, In s ss -> s_pkg s <> pkg) -> run_pass (PAddObject pkg obj as_ c) ss = Ok ss.
+Proof. exact add_object_absent_identity_proof. Qed.
+Print Assumptions add_object_absent_identity.
+Theorem duplicate_absent_identity : forall pkg obj ap ao om ss,
+  locate_object ss pkg obj = None -> run_pass (PDuplicateObject pkg obj ap ao om) ss = Ok ss.
+Proof. exact duplicate_absent_identity_proof. Qed.
+Print Assumptions duplicate_absent_identity.
+Theorem duplicate_is_copy : forall pkg obj ap ao ss src,
+  locate_object ss pkg obj = Some src ->
+  run_pass (PDuplicateObject pkg obj ap ao []) ss
+  = Ok (map (fun s => if seqb (s_pkg s) ap
+                      then register_objects s [mkObject ao (o_comments src) (o_type src) ap ao] else s) ss).
+Proof. exact duplicate_is_copy_proof. Qed.
+Print Assumptions duplicate_is_copy.
+
+(* schema_set_identifier / schema_set_entry_point *)
+Theorem schema_set_identifier_frame : forall pkg id ss,
+  Forall2 (fun s s' => s_pkg s' = s_pkg s /\ s_objects s' = s_objects s /\ s_entry s' = s_entry s /\
+                       s_entrytype s' = s_entrytype s /\
+                       (s_pkg s <> pkg -> s' = s) /\ (s_pkg s = pkg -> m_identifier (s_meta s') = id))
+          ss (schema_set_identifier pkg id ss).
+Proof. exact schema_set_identifier_frame_proof. Qed.
+Print Assumptions schema_set_identifier_frame.
+Theorem schema_set_entrypoint_frame : forall pkg ep ss,
+  Forall2 (fun s s' => s_pkg s' = s_pkg s /\ s_objects s' = s_objects s /\ s_meta s' = s_meta s /\
+                       (s_pkg s <> pkg -> s' = s) /\
+                       (s_pkg s = pkg -> s_entry s' = ep /\ s_entrytype s' = TRef A0 pkg ep))
+          ss (schema_set_entrypoint pkg ep ss).
+Proof. exact schema_set_entrypoint_frame_proof. Qed.
+Print Assumptions schema_set_entrypoint_frame.
+
+(* the implementation model does what the documented behaviour (Model/Spec15.v) says, for every
+   transformation and every sequence *)
+Theorem process_refines_spec : forall ps ss, process ps ss = spec_process ps ss.
+Proof. exact process_refines_spec_proof. Qed.
+Print Assumptions process_refines_spec.
+
+(* non-vacuity: a concrete three-object schema where selectors match something *)
+Example c15_schema : schema :=
+  mkSchema "p" {| m_kind := "" ; m_variant := "" ; m_identifier := "" |} "" ty_zero
+    [("Foo", mkObject "Foo" ["c"] (TStruct A0 [] [mkField "a" [] (TScalar A0 KString DNil []) false;
+                                                   mkField "b" [] (TRef A0 "p" "Bar") true]) "p" "Foo");
+     ("Bar", mkObject "Bar" [] (TScalar A0 KInt64 DNil []) "p" "Bar");
+     ("Baz", mkObject "Baz" [] (TEnum A0 []) "p" "Baz")]%string.
+Example c15_nonvacuous :
+  wf_schema c15_schema /\
+  targets_object (PFieldsSetRequired [("p", "foo", "A")]%string) (mkObject "Foo" [] ty_zero "p" "Foo")%string = true /\
+  targets_object (PFieldsSetRequired [("p", "foo", "A")]%string) (mkObject "Bar" [] ty_zero "p" "Bar")%string = false /\
+  run_pass (PFieldsSetRequired [("p", "foo", "A")]%string) [c15_schema] <> Ok [c15_schema].
+Proof.
+  split; [split; [repeat constructor; simpl; intuition discriminate|repeat constructor]|].
+  split; [reflexivity|]. split; [reflexivity|]. vm_compute. discriminate.
+Qed.
